@@ -503,6 +503,10 @@ var table = []entry{
 	// deterministic commands
 	{"reformat-fasta", false, func(in inputs) []string { return a("reformat", "fasta", "-i", in.ntPhy, "-p") }},
 	{"reformat-phylip", false, func(in inputs) []string { return a("reformat", "phylip", "-i", in.nt) }},
+	// compressed output files (suffix decides): the second run is started 1.1 s after the first one (see the tar entries)
+	{"reformat-fasta-gzout", false, func(in inputs) []string { return a("reformat", "fasta", "-i", in.nt, "-o", "out.fa.gz") }},
+	{"reformat-phylip-xzout", false, func(in inputs) []string { return a("reformat", "phylip", "-i", in.nt, "-o", "out.phy.xz") }},
+	{"shuffle-sites-gzout", true, func(in inputs) []string { return a("shuffle", "sites", "-i", in.nt, "-o", "out.fa.gz") }},
 	{"reformat-phylip-strict", false, func(in inputs) []string {
 		return a("reformat", "phylip", "-i", in.nt, "--output-strict", "--one-line")
 	}},
@@ -655,8 +659,10 @@ func runCommands(c *mon.Case) {
 	tarNoted := false
 	for _, t := range threads {
 		for rep := 0; rep < reps; rep++ {
-			if k == 1 && strings.HasSuffix(e.name, "-tar") {
-				time.Sleep(1100 * time.Millisecond) // drives the recorded tar time stamp finding on every run; decides nothing
+			if k == 1 && (strings.HasSuffix(e.name, "-tar") || strings.HasSuffix(e.name, "zout") || strings.HasSuffix(e.name, "-gz")) {
+				// drives the recorded tar time stamp finding on every run and lets a time stamp in any other compressed
+				// container show; decides nothing (identical bytes are demanded whatever the delay)
+				time.Sleep(1100 * time.Millisecond)
 			}
 			o := run(bin, dir, k, append(append([]string{}, args...), "-t", t))
 			if k == 0 {
@@ -780,6 +786,18 @@ func runChains(c *mon.Case) {
 			q = q[:L-len(tailWord)] + tailWord
 		}
 		rows[i] = gen.Seq{Name: r.Str(r.Range(1, 9), "abcXYZ019_") + gen.Itoa(i), Seq: q}
+	}
+	if r.Chance(0.15) {
+		// names of at most 10 characters but more than 10 bytes (the strict phylip writer cuts names after 10
+		// characters: such a name must survive a strict step unchanged)
+		for i := range rows {
+			pre := []rune(r.Str(r.Range(4, 6), "abcXYZ019_"))
+			for k := 0; k < 3; k++ {
+				pre = append(pre, []rune("éß日ñ")[r.Intn(4)])
+			}
+			rows[i].Name = string(pre) + gen.Itoa(i)
+		}
+		c.Count("chain:names-over-10-bytes-within-10-characters")
 	}
 	src := filepath.Join(dir, "src.fa")
 	writeFasta(src, rows)
